@@ -104,7 +104,7 @@ def _pdf_str(s: str) -> bytes:
     return b"(" + s.replace("\\", "\\\\").replace("(", "\\(").replace(")", "\\)").encode("latin-1") + b")"
 
 
-def write_pdf(pages: list, props: dict | None = None, images: dict | None = None) -> bytes:
+def write_pdf(pages: list, props: dict | None = None, images: dict | None = None, rotate: bool = False) -> bytes:
     """pages: list of pages; a page is a list of lines; a line is a list of token ids (joined by a space)
     or a literal string.  images: {page_index: [ {"kind": "jpeg"|"flate", "data": bytes, "w": int, "h": int} ]}.
     One Type1 font (Helvetica, WinAnsi), explicit Td per line -- nothing for table heuristics to latch on."""
@@ -118,7 +118,10 @@ def write_pdf(pages: list, props: dict | None = None, images: dict | None = None
     add(b"")                                   # placeholder for /Pages
     kids = []
     for pi, lines in enumerate(pages):
-        content = [b"BT /F1 12 Tf 14 TL 72 760 Td"]
+        # text matrix: upright, or (second page of every four) turned by 90 degrees (a vertical label), or (fourth)
+        # by 180 degrees (an upside-down stamp); reading order within the page is the order of the lines
+        tm = {1: b"0 1 -1 0 300 100 Tm", 3: b"-1 0 0 -1 540 700 Tm"}.get(pi % 4) if rotate else None
+        content = [b"BT /F1 12 Tf 14 TL " + (tm if tm else b"72 760 Td")]
         for ln in lines:
             text = ln if isinstance(ln, str) else " ".join(word(i) for i in ln)
             content.append(_pdf_str(text) + b" Tj T*")
